@@ -110,6 +110,16 @@ func TestVerif_C10_Builds(t *testing.T) {
 				c.Docs[i].Syms, c.Docs[i].SymKinds = nil, nil
 			}
 		}
+		// the same non-ASCII trigrams in several documents at different (non-zero) offsets: with a
+		// small ShardMax they land in different shards written by one reused builder
+		for i := range c.Docs {
+			if c.Docs[i].ViaBuilder && len(c.Docs[i].Content) >= 3 && rng.Intn(3) != 0 && c.Docs[i].Effective() == c.Docs[i].Content {
+				rs := []rune(c.Docs[i].Content)
+				at := rng.Intn(len(rs) + 1)
+				c.Docs[i].Content = string(rs[:at]) + []string{"é中ß😀", "日本語", "中ß😀é"}[rng.Intn(3)] + string(rs[at:])
+				c.Docs[i].Syms, c.Docs[i].SymKinds = nil, nil
+			}
+		}
 		c.DedupDocs()
 		// non-ASCII trigrams only in some documents (map-backed postings kept across builder resets)
 		tr.Emit(c.Event())
@@ -125,6 +135,10 @@ func TestVerif_C10_Builds(t *testing.T) {
 				qs = append(qs, g.Tree(2))
 			}
 		}
+		for _, pat := range []string{"é中ß", "中ß😀", "日本語", "本語", "ß😀é"} {
+			qs = append(qs, &corpus.Q{T: "substr", Pat: pat, CT: true, CS: rng.Intn(2) == 0})
+		}
+		qs = append(qs, &corpus.Q{T: "regex", Pat: "é中ß.|日本.", CT: true, CS: true})
 		configs := []c10Config{
 			{ShardMax: 1, Parallelism: 1},
 			{ShardMax: 1, Parallelism: 4, Permute: true},
